@@ -5,7 +5,8 @@ Procedures layer, simulation part — argument lists and calls.
 
 `case_args`: the arguments are evaluated left to right into the collecting state (by value with `Cast`, a by-reference
 actual with the variable's current value).  `call_correct`: the whole call protocol — `BeginCollectArguments`, the
-arguments, `PushStack` (the callee's frame with the parameters bound), `PushRet`, `Jump` to the procedure's label, the
+arguments, `PushStack` (the callee's frame with the parameters bound), `PushRet`, `Jump` to the procedure's label (a STATIC
+FUNCTION then resets its result variable), the
 body (by the statement hypothesis at the fuel the reference semantics uses, ended by the final `PopRet` or by
 `EXIT SUB / FUNCTION`), then the epilogue: `EnqueueToReturnStack` for every by-reference actual,
 `StashFunctionReturnValue`, `PopStack`, the write-backs left to right, `UnStashFunctionReturnValue`.
@@ -583,38 +584,81 @@ theorem typed_rebind (d : ProcDecl SStmt) (old vals : List Val) (hs : SlotsOk d)
   · obtain ⟨w, hw, hwt⟩ := hold.2 x t hx
     exact ⟨w, by rw [rebind_get_ge old vals x (by omega)]; exact hw, hwt⟩
 
-/-- the label of a procedure (and, for a FUNCTION, the instruction that loads the default result): control arrives at
-the body with everything but the registers as it was -/
-theorem proc_entry (code : Code) (lay : Layout) (tgt : Nat) (d : ProcDecl SStmt) (τ : Vm)
-    (hc : CodeAt code tgt (compileProc lay tgt d)) (hpc : τ.pc = tgt) :
-    ∃ k r, Steps code τ { τ with pc := tgt + k, regs := r } ∧
-      CodeAt code (tgt + k) (compileStmt lay "" 0 0 (tgt + k) d.body) ∧
-      code[tgt + k + sizeStmt 0 0 d.body]? = some (CInstr.popRet, d.pos) := by
+/-- the label of a procedure and, for a FUNCTION, the default result (loaded into A; a STATIC function also stores it into
+its result variable: the result of the previous call does not persist): control arrives at the body in the state
+`Ref.enter` prescribes, the stacks as they were -/
+theorem body_entry (W : World) (scd : Scope) (below' : List CtxState) (tgt : Nat) (d : ProcDecl SStmt) (sE : St) (τ : Vm)
+    (hc : CodeAt W.code tgt (compileProc W.lay tgt d)) (hpc : τ.pc = tgt) (hrel : Rel W scd [] below' sE τ)
+    (hres : ∀ rt, d.result = some rt → scd.slots.loc[d.params.length]? = some rt) :
+    ∃ k σb, Steps W.code τ σb ∧ σb.pc = tgt + k ∧
+      CodeAt W.code (tgt + k) (compileStmt W.lay "" 0 0 (tgt + k) d.body) ∧
+      W.code[tgt + k + sizeStmt 0 0 d.body]? = some (CInstr.popRet, d.pos) ∧
+      Rel W scd [] below'
+        (match d.static, d.result with
+         | true, some rt => sE.set ⟨false, d.params.length⟩ (zeroOf rt)
+         | _, _ => sE) σb ∧
+      SameStacks τ σb := by
   subst hpc
   unfold compileProc at hc
-  cases hres : d.result with
+  cases hr : d.result with
   | none =>
-    simp only [hres] at hc
-    have h0 : code[τ.pc]? = some (CInstr.label (":sub:" ++ d.name), d.pos) := hc.append_left.append_left.head
-    refine ⟨1, τ.regs, Steps.one ?_, ?_, ?_⟩
-    · simp only [Vm.step, h0]; rfl
+    simp only [hr] at hc
+    have h0 : W.code[τ.pc]? = some (CInstr.label (":sub:" ++ d.name), d.pos) := hc.append_left.append_left.head
+    refine ⟨1, Vm.advance τ, Steps.one ?_, rfl, ?_, ?_, ?_, ⟨rfl, rfl, rfl, rfl, rfl, rfl, id⟩⟩
+    · simp only [Vm.step, h0]
     · have := hc.append_left.append_right
       simpa using this
     · have := hc.append_right.head
       simp only [List.length_append, List.length_singleton, len_stmt] at this
       rw [← this]; congr 1; omega
+    · have : (match d.static, (none : Option Ty) with
+          | true, some rt => sE.set ⟨false, d.params.length⟩ (zeroOf rt)
+          | _, _ => sE) = sE := by cases d.static <;> rfl
+      rw [this]; exact hrel.advance
   | some t =>
-    simp only [hres] at hc
-    have h0 : code[τ.pc]? = some (CInstr.label (":fun:" ++ d.name), d.pos) := hc.append_left.append_left.head
-    have h1 : code[τ.pc + 1]? = some (CInstr.allocate t, d.pos) := hc.append_left.append_left.tail.head
-    refine ⟨2, { τ.regs with a := zeroOf t }, Steps.cons (τ := Vm.advance τ) ?_ (Steps.one ?_), ?_, ?_⟩
-    · simp only [Vm.step, h0]
-    · simp only [Vm.step, Vm.advance, h1]; rfl
-    · have := hc.append_left.append_right
-      simpa using this
-    · have := hc.append_right.head
-      simp only [List.length_append, List.length_cons, List.length_nil, len_stmt] at this
-      rw [← this]; congr 1; omega
+    simp only [hr] at hc
+    by_cases hst : d.static = true
+    case neg =>
+      have hsf : d.static = false := by simpa using hst
+      simp only [hsf, Bool.false_eq_true, if_false] at hc
+      have h0 : W.code[τ.pc]? = some (CInstr.label (":fun:" ++ d.name), d.pos) := hc.append_left.append_left.head
+      have h1 : W.code[τ.pc + 1]? = some (CInstr.allocate t, d.pos) := hc.append_left.append_left.tail.head
+      refine ⟨2, Vm.advance (Vm.setA (Vm.advance τ) (zeroOf t)),
+        Steps.cons (τ := Vm.advance τ) ?_ (Steps.one ?_), rfl, ?_, ?_, ?_, ⟨rfl, rfl, rfl, rfl, rfl, rfl, id⟩⟩
+      · simp only [Vm.step, h0]
+      · simp only [Vm.step, Vm.advance, h1]
+      · have := hc.append_left.append_right
+        simpa using this
+      · have := hc.append_right.head
+        simp only [List.length_append, List.length_cons, List.length_nil, len_stmt] at this
+        rw [← this]; congr 1; omega
+      · simp only [hsf]
+        exact ((hrel.advance).setA _).advance
+    case pos =>
+      simp only [hst, if_true] at hc
+      have h0 : W.code[τ.pc]? = some (CInstr.label (":fun:" ++ d.name), d.pos) := hc.append_left.append_left.head
+      have h1 : W.code[τ.pc + 1]? = some (CInstr.allocate t, d.pos) := hc.append_left.append_left.tail.head
+      let τ2 : Vm := Vm.advance (Vm.setA (Vm.advance τ) (zeroOf t))
+      have s1 : Vm.step W.code τ = .next (Vm.advance τ) := by simp only [Vm.step, h0]
+      have s2 : Vm.step W.code (Vm.advance τ) = .next τ2 := by simp only [Vm.step, Vm.advance, h1]; rfl
+      have hcs : CodeAt W.code τ2.pc (storeVar ⟨false, d.resultSlot⟩ t d.pos) := by
+        have := hc.append_left.append_left.tail.tail
+        exact this.at (by simp [τ2, Vm.advance, Vm.setA])
+      have st3 := store_steps W.code ⟨false, d.resultSlot⟩ t d.pos τ2 hcs
+      have hx : scd.slots.get? ⟨false, d.resultSlot⟩ = some t := by
+        simpa [SlotTabs.get?, ProcDecl.resultSlot] using hres t hr
+      have hrel2 : Rel W scd [] below' sE τ2 := ((hrel.advance).setA _).advance
+      have hrel3 := hrel2.storeSt hx (show τ2.regs.a.tag = t from zeroOf_tag t)
+      refine ⟨4, storeSt τ2 ⟨false, d.resultSlot⟩, Steps.cons s1 (Steps.cons s2 st3), ?_, ?_, ?_, ?_,
+        SameStacks.trans (show SameStacks τ τ2 from ⟨rfl, rfl, rfl, rfl, rfl, rfl, id⟩) (SameStacks.storeSt τ2 _)⟩
+      · rw [storeSt_pc]; simp [τ2, Vm.advance, Vm.setA]
+      · have := hc.append_left.append_right
+        simpa using this
+      · have := hc.append_right.head
+        simp only [List.length_append, List.length_cons, List.length_nil, len_stmt] at this
+        rw [← this]; congr 1; omega
+      · simp only [hst]
+        exact hrel3
 
 /-! ### back in the caller -/
 
@@ -822,7 +866,7 @@ theorem entry_step (W : World) (procs : List (ProcDecl SStmt)) (hp : ProcsOk W p
       FrameRel sc fr1 s1.locals ∧
       Vm.step W.code τ2 = .next τ3 ∧ τ3.pc = τ2.pc + 1 ∧
       Rel W (procScope W.P.gslots f d) [] (pre ++ topState sc fr1 :: below)
-        (Proc.Ref.enter { d with body := desugar d.body } f vals s1) τ3 ∧
+        (Proc.Ref.enterCore { d with body := desugar d.body } f vals s1) τ3 ∧
       τ3.trace = p :: τ2.trace ∧ τ3.regs = τ2.regs ∧ τ3.regStack = τ2.regStack ∧ τ3.vals = τ2.vals ∧
       τ3.paths = τ2.paths ∧ τ3.rets = τ2.rets ∧ τ3.marks = τ2.marks ∧ τ3.skipNewline = τ2.skipNewline := by
   obtain ⟨fr1, hctx2, hcf1, hfr1⟩ := hrel2.ctx
@@ -844,9 +888,9 @@ theorem entry_step (W : World) (procs : List (ProcDecl SStmt)) (hp : ProcsOk W p
     let τ3 : Vm := Vm.advance { τ2 with ctx := .frame (vals.map some) :: (pre ++ topState sc fr1 :: below),
                                         trace := p :: τ2.trace }
     have s3 : Vm.step W.code τ2 = .next τ3 := by simp only [Vm.step, hi', hctx2']; rfl
-    have hent : Proc.Ref.enter { d with body := desugar d.body } f vals s1 =
+    have hent : Proc.Ref.enterCore { d with body := desugar d.body } f vals s1 =
         { s1 with self := none, env := Proc.Ref.freshEnv d.slots vals } := by
-      simp [Proc.Ref.enter, hds]
+      simp [Proc.Ref.enterCore, hds]
     have hself : (procScope W.P.gslots f d).self = none := by simp [procScope, hds]
     refine ⟨τ3, fr1, hctx2', hcf1, hfr1, s3, rfl, ?_, rfl, rfl, rfl, rfl, rfl, rfl, rfl, rfl⟩
     rw [hent]
@@ -865,10 +909,10 @@ theorem entry_step (W : World) (procs : List (ProcDecl SStmt)) (hp : ProcsOk W p
     have s3 : Vm.step W.code τ2 = .next τ3 := by
       simp only [Vm.step, hi', hctx2']
       cases hsf : τ2.statics f <;> simp [τ3, blk, newBlock, hsf]
-    have hent : Proc.Ref.enter { d with body := desugar d.body } f vals s1 =
+    have hent : Proc.Ref.enterCore { d with body := desugar d.body } f vals s1 =
         { s1 with self := some f,
                   statics := fun g => if g = f then Proc.Ref.rebind (s1.statics f) vals else s1.statics g } := by
-      simp [Proc.Ref.enter, hds]
+      simp [Proc.Ref.enterCore, hds]
     have hself : (procScope W.P.gslots f d).self = some f := by simp [procScope, hds]
     have hsr := hrel2.stat f { d with body := desugar d.body } hPf hds
     have hfrb : FrameRel (procScope W.P.gslots f d) blk (Proc.Ref.rebind (s1.statics f) vals) :=
@@ -971,21 +1015,32 @@ theorem call_correct (W : World) (procs : List (ProcDecl SStmt)) (hp : ProcsOk W
           simp only [τ4, Vm.advance, hp3]; exact hm2
         simp only [Vm.step, this]; rfl
       -- the label (and the default result)
-      obtain ⟨k, r, stE, hcBody, hpopret⟩ := proc_entry W.code W.lay (W.lay.addr f) d τ5 hat rfl
-      let σb : Vm := { τ5 with pc := W.lay.addr f + k, regs := r }
-      have preB : Steps W.code σ σb :=
-        ((Steps.cons s1 st2).trans (Steps.cons s3 (Steps.cons s4 (Steps.one s5)))).trans stE
       let scd := procScope W.P.gslots f d
       let dP : ProcDecl Stmt := { d with body := desugar d.body }
+      have h5rets : τ5.rets = (σ.pc + 1 + sizePush args + 3) :: τ2.rets := by simp [τ5, τ4, Vm.advance, hrt3]
+      have h5marks : τ5.marks = (τ2.regStack.length + 1) :: τ2.marks := by simp [τ5, τ4, Vm.advance, hmk3, hrs3]
+      have h5reg : τ5.regStack = τ2.regStack := by simp [τ5, τ4, Vm.advance, hrs3]
+      have h5vals : τ5.vals = τ2.vals := by simp [τ5, τ4, Vm.advance, hv3]
+      have h5paths : τ5.paths = τ2.paths := by simp [τ5, τ4, Vm.advance, hpa3]
+      have h5trace : τ5.trace = p :: τ2.trace := by simp [τ5, τ4, Vm.advance, htr3]
+      have h5skip : τ5.skipNewline = τ2.skipNewline := by simp [τ5, τ4, Vm.advance, hsk3]
+      have hrel5 : Rel W scd [] below' (Proc.Ref.enterCore dP f vals s1') τ5 := hrel3.same rfl rfl rfl rfl rfl rfl
+      obtain ⟨k, σb, stE, hpb0, hcBody, hpopret, hrelb0, hkb⟩ :=
+        body_entry W scd below' (W.lay.addr f) d (Proc.Ref.enterCore dP f vals s1') τ5 hat rfl hrel5
+          (by
+            intro rt hrt
+            simpa [scd, procScope] using hslots.2 rt hrt)
+      have hrelb : Rel W scd [] below' (Proc.Ref.enter dP f vals s1') σb := hrelb0
+      have preB : Steps W.code σ σb :=
+        ((Steps.cons s1 st2).trans (Steps.cons s3 (Steps.cons s4 (Steps.one s5)))).trans stE
       -- the body
-      have hrelb : Rel W scd [] below' (Proc.Ref.enter dP f vals s1') σb := hrel3.same rfl rfl rfl rfl rfl rfl
       have hactb : ActInv scd 0 0 σb :=
         ⟨fun h => by simp [scd, procScope] at h, fun _ => ⟨σ.pc + 1 + sizePush args + 3, τ2.rets, τ2.regStack.length + 1, τ2.marks,
-          by simp [σb, τ5, τ4, Vm.advance, hrt3], by simp [σb, τ5, τ4, Vm.advance, hmk3, hrs3],
-          by simp [σb, τ5, τ4, Vm.advance, hrs3],
+          by rw [hkb.rets, h5rets], by rw [hkb.marks, h5marks],
+          by rw [hkb.regStack, h5reg],
           Nat.le_add_left _ _, Nat.zero_le _⟩⟩
       have hB := ih.self.stmt scd d.body "" 0 0 (W.lay.addr f + k) below'
-        (Proc.Ref.enter dP f vals s1') σb hcBody rfl hrelb hwfb hactb
+        (Proc.Ref.enter dP f vals s1') σb hcBody hpb0 hrelb hwfb hactb
       simp only
       generalize Proc.Ref.exec W.P fuel (desugar d.body) (Proc.Ref.enter dP f vals s1') = rb at hB ⊢
       obtain ⟨s2, o⟩ := rb
@@ -998,17 +1053,17 @@ theorem call_correct (W : World) (procs : List (ProcDecl SStmt)) (hp : ProcsOk W
           obtain ⟨τb, stb, hpb, hrelbb, hssb⟩ := hB
           have hpr : W.code[τb.pc]? = some (CInstr.popRet, d.pos) := by rw [hpb]; exact hpopret
           have htrunc : truncRegs τb (τ2.regStack.length + 1) = some τb :=
-            truncRegs_full τb _ (by rw [hssb.regStack]; simp [σb, τ5, τ4, Vm.advance, hrs3])
+            truncRegs_full τb _ (by rw [hssb.regStack, hkb.regStack, h5reg])
           let τr : Vm := { τb with pc := σ.pc + 1 + sizePush args + 3, rets := τ2.rets, marks := τ2.marks }
           have sr : Vm.step W.code τb = .next τr := by
             have e1 : τb.rets = (σ.pc + 1 + sizePush args + 3) :: τ2.rets := by
-              rw [hssb.rets]; simp [σb, τ5, τ4, Vm.advance, hrt3]
+              rw [hssb.rets, hkb.rets, h5rets]
             have e2 : τb.marks = (τ2.regStack.length + 1) :: τ2.marks := by
-              rw [hssb.marks]; simp [σb, τ5, τ4, Vm.advance, hmk3, hrs3]
+              rw [hssb.marks, hkb.marks, h5marks]
             simp only [Vm.step, hpr, e1, e2, htrunc]; rfl
           refine ⟨τr, stb.trans (Steps.one sr), ?_, hrelbb.same rfl rfl rfl rfl rfl rfl⟩
-          exact ⟨⟨σ.pc + 1 + sizePush args + 3, τ2.regStack.length + 1, by simp [σb, τ5, τ4, Vm.advance, hrt3, τr],
-              by simp [σb, τ5, τ4, Vm.advance, hmk3, hrs3, τr], rfl⟩,
+          exact ⟨⟨σ.pc + 1 + sizePush args + 3, τ2.regStack.length + 1, by rw [hkb.rets, h5rets],
+              by rw [hkb.marks, h5marks], rfl⟩,
             hssb.regStack, hssb.vals, hssb.paths, hssb.trace, hssb.skip⟩
         | exited => exact hB
         | halted => cases hro
@@ -1031,8 +1086,8 @@ theorem call_correct (W : World) (procs : List (ProcDecl SStmt)) (hp : ProcsOk W
       | true =>
         obtain ⟨τr, str, hx, hrelr⟩ := hret hro
         obtain ⟨a', m', hxr, hxm, hxp⟩ := hx.ret
-        have hσbr : σb.rets = (σ.pc + 1 + sizePush args + 3) :: τ2.rets := by simp [σb, τ5, τ4, Vm.advance, hrt3]
-        have hσbm : σb.marks = (τ2.regStack.length + 1) :: τ2.marks := by simp [σb, τ5, τ4, Vm.advance, hmk3, hrs3]
+        have hσbr : σb.rets = (σ.pc + 1 + sizePush args + 3) :: τ2.rets := by rw [hkb.rets, h5rets]
+        have hσbm : σb.marks = (τ2.regStack.length + 1) :: τ2.marks := by rw [hkb.marks, h5marks]
         have hra : a' = σ.pc + 1 + sizePush args + 3 ∧ τr.rets = τ2.rets := by
           have : (σ.pc + 1 + sizePush args + 3) :: τ2.rets = a' :: τr.rets := by rw [← hσbr]; exact hxr
           injection this with h1 h2
@@ -1060,7 +1115,7 @@ theorem call_correct (W : World) (procs : List (ProcDecl SStmt)) (hp : ProcsOk W
           exact ⟨by rw [← hloc]; exact hfr1, by rw [← hloc]; exact hrel2.typed⟩
         have hepi := epilogue W sc scd pre below args p p res (σ.pc + 1 + sizePush args + 3) τr
           s1' s2 fr1 τ2.trace (hcEpi.at (by omega)) (by rw [hxp, hra.1]) hrelr hr.coll hrel2.self hrel2.gl hrel2.scok
-          hns hst (by rw [hx.trace]; simp [σb, τ5, τ4, Vm.advance, htr3]) haw
+          hns hst (by rw [hx.trace, hkb.trace, h5trace]) haw
           (by
             intro k' pn pt hk
             rw [← hpar] at hk
@@ -1075,13 +1130,13 @@ theorem call_correct (W : World) (procs : List (ProcDecl SStmt)) (hp : ProcsOk W
         refine ⟨υ, (preB.trans str).trans stυ, ?_, hrelυ, ?_, ?_⟩
         · rw [hpυ]; simp only [sizeCall]; omega
         · refine ⟨?_, ?_, ?_, ?_, ?_, ?_, ?_⟩
-          · rw [hvυ, hx.vals, List.drop_zero]; simp only [σb, τ5, τ4, Vm.advance, hv3]; exact hss2.vals
-          · rw [hpaυ, hx.paths]; simp only [σb, τ5, τ4, Vm.advance, hpa3]; exact hss2.paths
-          · rw [hrgυ, hx.regStack, List.drop_zero]; simp only [σb, τ5, τ4, Vm.advance, hrs3]; exact hss2.regStack
+          · rw [hvυ, hx.vals, List.drop_zero, hkb.vals, h5vals]; exact hss2.vals
+          · rw [hpaυ, hx.paths, hkb.paths, h5paths]; exact hss2.paths
+          · rw [hrgυ, hx.regStack, List.drop_zero, hkb.regStack, h5reg]; exact hss2.regStack
           · rw [hrtυ, hra.2]; exact hss2.rets
           · rw [hmkυ, hrm]; exact hss2.marks
           · rw [htrυ]; exact hss2.trace
-          · intro hk; rw [hskυ]; exact hx.skip (by simp only [σb, τ5, τ4, Vm.advance, hsk3]; exact hss2.skip hk)
+          · intro hk; rw [hskυ]; exact hx.skip (hkb.skip (by rw [h5skip]; exact hss2.skip hk))
         · intro t ht
           obtain ⟨h1, h2⟩ := hresυ t ht
           have hdr : d.result = some t := by rw [hres]; exact ht
